@@ -9,11 +9,12 @@ PROPS = [f"C{i:02d}" for i in range(1, 19)]
 
 
 def one(patch):
+    patch = os.path.abspath(patch)
     d = tempfile.mkdtemp(prefix="pv-probe-")
     try:
         r = subprocess.run([os.path.join(V, "tools", "probe_copy.sh"), patch, d], capture_output=True, text=True)
         if r.returncode != 0:
-            return patch, {"error": r.stderr[-300:]}
+            return patch, {"error": [(r.stderr + r.stdout)[-300:]]}
         out = {}
         env = dict(os.environ, PV_NO_EVIDENCE="1")
         for p in PROPS:
@@ -32,7 +33,9 @@ def one(patch):
 
 
 def main():
-    patches = sys.argv[1:]
+    import glob
+
+    patches = sys.argv[1:] or sorted(glob.glob(os.path.join(V, "refactors", "*", "patch.diff")))
     with ThreadPoolExecutor(max_workers=int(os.environ.get("PV_JOBS", "4"))) as ex:
         for patch, out in ex.map(one, patches):
             print("=====", patch, "OK (silent)" if not out else "")
